@@ -234,6 +234,8 @@ def children_are_direct(ctx):
 
 def run(ctx):
     children_are_direct(ctx)
+    from .C11 import instance_action_args
+    instance_action_args(ctx)
     configured_patterns(ctx)
     child_context_summary(ctx)
     # locals / parameters the rules below refer to by name (a rename makes the analysis 'broken', never a violation)
